@@ -141,10 +141,16 @@ def gen_fen(rng, big):
 
 def impl(case):
     from solvor.utils.data_structures import FenwickTree, UnionFind
+    decoy = case.get("decoy")  # a second live instance operated in between (class-level shared state would show)
     if case["kind"] == "uf":
         uf = UnionFind(case["n"])
+        duf = UnionFind(decoy["n"]) if decoy else None
         outs = []
-        for k, x, y in case["ops"]:
+        for idx, (k, x, y) in enumerate(case["ops"]):
+            if duf is not None:
+                a, b = decoy["pairs"][idx % len(decoy["pairs"])]
+                duf.union(a, b)
+                duf.find(b)
             if k == UNION:
                 outs.append(bool(uf.union(x, y)))
             elif k == FIND:
@@ -160,9 +166,17 @@ def impl(case):
         return outs
     sc = case["scale"]
     conv = (lambda v: v / sc) if (case["floats"] or sc != 1) else (lambda v: v)
-    ft = FenwickTree(case["n"]) if case["init"] is None else FenwickTree([conv(v) for v in case["init"]])
+    init_vals = None if case["init"] is None else [conv(v) for v in case["init"]]
+    if init_vals is not None and case.get("init_as_tuple"):
+        init_vals = tuple(init_vals)
+    ft = FenwickTree(case["n"]) if init_vals is None else FenwickTree(init_vals)
+    dft = FenwickTree(decoy["n"]) if decoy else None
     outs = []
-    for op in case["ops"]:
+    for idx, op in enumerate(case["ops"]):
+        if dft is not None:
+            a, b = decoy["pairs"][idx % len(decoy["pairs"])]
+            dft.update(a, b + 1)
+            dft.prefix(b)
         if op[0] == 0:
             ft.update(op[1], conv(op[2]))
         elif op[0] == 1:
@@ -306,7 +320,15 @@ def run(ctx, budget):
     n = 500 * budget
     big = ctx.tier == "thorough"
     for i in range(n):
-        cases.append(gen_uf(ctx.rng, big) if i % 2 == 0 else gen_fen(ctx.rng, big))
+        c = gen_uf(ctx.rng, big) if i % 2 == 0 else gen_fen(ctx.rng, big)
+        if ctx.rng.random() < 0.25:
+            dn = ctx.rng.randint(2, 9)
+            c["decoy"] = {"n": dn, "pairs": [[ctx.rng.randrange(dn), ctx.rng.randrange(dn)] for _ in range(5)]}
+            ctx.count("presentation:decoy_instance")
+        if c["kind"] == "fen" and c["init"] is not None and ctx.rng.random() < 0.3:
+            c["init_as_tuple"] = True
+            ctx.count("presentation:init_as_tuple")
+        cases.append(c)
     # a few large structured histories (deep-chain family): cheap for a correct union-find
     for size in ([1200, 1500] if not big else [1200, 1500, 2000, 2500]):
         cases.append(gen_uf_chain(ctx.rng, size))
